@@ -374,6 +374,26 @@ Scale ==
     /\ x.kind = "bf"
     /\ Push([Node("scale", i, 0, "bf", x.args, x.may, x.deg, x.dif, x.hasact, x.idl, x.isform)
              EXCEPT !.w = w, !.hasform = x.hasform])
+\* Does node i hold an identity operand (Coargument / Argument) as a component of a (weighted) sum?
+\* The action distributes over the components, and Action.__new__ returns the OTHER operand, with
+\* its own argument numbers, for the identity component.  HasCof(i, q): the cofunction q is a
+\* component of the sum i (its derivative w.r.t. q is the Coargument).
+RECURSIVE HasCof(_, _)
+HasCof(i, q) ==
+  LET nd == store[i] IN
+  \/ nd.op = "leaf" /\ nd.lk = "cof" /\ nd.id = q
+  \/ nd.op \in {"add", "sub"} /\ \E k \in {nd.a, nd.b} : store[k].kind = "bf" /\ HasCof(k, q)
+  \/ nd.op \in {"neg", "scale"} /\ HasCof(nd.a, q)
+  \/ nd.op = "wsum" /\ \E k \in {nd.a, nd.b, nd.c} : HasCof(k, q)
+  \/ nd.op = "repl" /\ ((nd.q # q /\ HasCof(nd.a, q)) \/ (nd.dir = q /\ HasCof(nd.a, nd.q)))
+RECURSIVE HasIdl(_)
+HasIdl(i) ==
+  LET nd == store[i] IN
+  \/ nd.idl
+  \/ nd.op \in {"add", "sub"} /\ \E k \in {nd.a, nd.b} : store[k].kind = "bf" /\ HasIdl(k)
+  \/ nd.op \in {"neg", "scale", "repl"} /\ HasIdl(nd.a)
+  \/ nd.op = "wsum" /\ \E k \in {nd.a, nd.b, nd.c} : HasIdl(k)
+  \/ nd.op = "der" /\ nd.dir = 0 /\ CoefDu(nd.q) /\ HasCof(nd.a, nd.q)
 \* ufl.action(A, B)
 Act ==
   \E i, j \in DOMAIN store :
@@ -381,9 +401,10 @@ Act ==
     /\ x.kind = "bf" /\ x.args # <<>> /\ y.args # <<>>
     /\ Pairs(Last(x.args), y.args[1])
     /\ StrictInc(ra)
-    \* an identity operand (Coargument / Argument) carries the number of the slot it replaces
-    /\ y.idl => Last(y.args).n = Last(x.args).n
-    /\ x.idl => x.args[1].n = y.args[1].n
+    \* an identity operand (Coargument / Argument), also as a component of a sum, carries the
+    \* number of the slot it replaces
+    /\ HasIdl(j) => Last(y.args).n = Last(x.args).n
+    /\ HasIdl(i) => x.args[1].n = y.args[1].n
     \* ufl.action(Form, e) is compute_form_action, which needs e.ufl_function_space(): a sum of
     \* coefficients is accepted (and distributed) by Action only
     /\ (y.kind = "coef" /\ y.op # "leaf") => ~x.isform
